@@ -25,6 +25,7 @@ struct Ctl {
     ndone: usize,
     nested_ran: usize,
     retried: bool,
+    h1: bool,
 }
 static mut CTL: Ctl = Ctl {
     active: false,
@@ -41,6 +42,7 @@ static mut CTL: Ctl = Ctl {
     ndone: 0,
     nested_ran: 0,
     retried: false,
+    h1: false,
 };
 fn ctl() -> &'static mut Ctl {
     unsafe { &mut *core::ptr::addr_of_mut!(CTL) }
@@ -59,6 +61,7 @@ pub(crate) fn scripted_height(max: usize) -> Option<usize> {
 }
 
 type SL = SkipList<u8, u8, 2>;
+type SL1 = SkipList<u8, u8, 1>;
 
 /// Hook in `SkipList::insert` between `set_next` of the new node and the publishing CAS:
 /// here another "thread" may run one whole operation (decided by the tape).
@@ -79,8 +82,13 @@ pub(crate) fn yield_point() {
                 c.nested_ran += 1;
                 let k = c.keys[c.kp];
                 c.kp += 1;
-                let sl = unsafe { &*(c.list as *const SL) };
-                sl.insert(k, k ^ 0x5a);
+                if c.h1 {
+                    let sl = unsafe { &*(c.list as *const SL1) };
+                    sl.insert(k, k ^ 0x5a);
+                } else {
+                    let sl = unsafe { &*(c.list as *const SL) };
+                    sl.insert(k, k ^ 0x5a);
+                }
                 let c = ctl();
                 c.done[c.ndone] = k;
                 c.ndone += 1;
@@ -91,14 +99,19 @@ pub(crate) fn yield_point() {
             // a reader: every completed insert is found; iteration strictly increases
             c.budget -= 1;
             c.depth += 1;
-            let sl = unsafe { &*(c.list as *const SL) };
-            reader_checks(sl);
+            if c.h1 {
+                let sl = unsafe { &*(c.list as *const SL1) };
+                reader_checks(sl);
+            } else {
+                let sl = unsafe { &*(c.list as *const SL) };
+                reader_checks(sl);
+            }
             ctl().depth -= 1;
         }
     }
 }
 
-fn reader_checks(sl: &SL) {
+fn reader_checks<const MH: usize>(sl: &SkipList<u8, u8, MH>) {
     let c = ctl();
     let mut i = 0;
     while i < c.ndone {
@@ -130,6 +143,14 @@ fn reader_checks(sl: &SL) {
     assert!(seen == c.ndone, "reader: every completed insert appears in a full iteration");
 }
 
+/// For harnesses of dependent crates (lsmtk's memtable): script the node heights.
+pub fn script_heights(heights: &[usize]) {
+    activate(heights);
+}
+pub fn unscript_heights() {
+    deactivate();
+}
+
 fn activate(heights: &[usize]) {
     let c = ctl();
     *c = Ctl {
@@ -147,6 +168,7 @@ fn activate(heights: &[usize]) {
         ndone: 0,
         nested_ran: 0,
         retried: false,
+        h1: false,
     };
     let mut i = 0;
     while i < heights.len() && i < 8 {
@@ -401,7 +423,7 @@ harness!(iter_clone_after_drop, 4, |t| {
 /// One insert whose every yield point may host a complete second operation (another insert
 /// or a reader), nesting depth <= 2.  Reaches the CAS-failure / re-search path that no
 /// sequential run reaches.
-fn nested<const M: usize>(t: &[u8], heights: [usize; 4], budget: usize) {
+fn nested<const M: usize, const MH: usize>(t: &[u8], heights: [usize; 4], budget: usize) {
     let mut t = Tape::new(t);
     let mut keys = [0xffu8; 4];
     let mut i = 0;
@@ -416,7 +438,7 @@ fn nested<const M: usize>(t: &[u8], heights: [usize; 4], budget: usize) {
         i += 1;
     }
     activate(&heights);
-    let sl: SL = SkipList::default();
+    let sl: SkipList<u8, u8, MH> = SkipList::default();
     {
         let c = ctl();
         let mut i = 0;
@@ -427,7 +449,8 @@ fn nested<const M: usize>(t: &[u8], heights: [usize; 4], budget: usize) {
         c.keys = keys;
         c.kp = 1;
         c.budget = budget;
-        c.list = &sl as *const SL as *const ();
+        c.h1 = MH == 1;
+        c.list = &sl as *const SkipList<u8, u8, MH> as *const ();
     }
     // the outer writer inserts keys[0]; interference may insert keys[1..]
     sl.insert(keys[0], keys[0] ^ 0x5a);
@@ -483,11 +506,10 @@ fn nested<const M: usize>(t: &[u8], heights: [usize; 4], budget: usize) {
     core::mem::forget(it);
     core::mem::forget(sl);
 }
-harness!(nested2_h11, 10, |t| { nested::<2>(t, [1, 1, 1, 1], 1) });
-harness!(nested2_h21, 10, |t| { nested::<2>(t, [2, 1, 1, 1], 1) });
-harness!(nested2_h12, 10, |t| { nested::<2>(t, [1, 2, 1, 1], 1) });
-harness!(nested2_h22, 10, |t| { nested::<2>(t, [2, 2, 1, 1], 2) });
-harness!(nested3_h111, 11, |t| { nested::<3>(t, [1, 1, 1, 1], 2) });
+harness!(nested2_mh1, 10, |t| { nested::<2, 1>(t, [1, 1, 1, 1], 1) });
+harness!(nested3_mh1, 11, |t| { nested::<3, 1>(t, [1, 1, 1, 1], 2) });
+harness!(nested2_h11, 10, |t| { nested::<2, 2>(t, [1, 1, 1, 1], 1) });
+harness!(nested2_h21, 10, |t| { nested::<2, 2>(t, [2, 1, 1, 1], 1) });
 
 harness_list!(
     s2_h11_seek_next, s2_h11_seek_prev, s2_h11_last_prev, s2_h11_first_prev,
@@ -497,5 +519,5 @@ harness_list!(
     s2_h11_forward, s2_h21_backward, s3_h111_member, s3_h121_seek, s3_h212_seek,
     iter_after_drop_h11_seek_next, iter_after_drop_h21_seek_prev, iter_after_drop_h12_last_prev,
     iter_clone_after_drop,
-    nested2_h11, nested2_h21, nested2_h12, nested2_h22, nested3_h111,
+    nested2_mh1, nested3_mh1, nested2_h11, nested2_h21,
 );
